@@ -200,6 +200,12 @@ def run(ctx):  # noqa: C901
     from ..rules import r_guard_pred
     r_guard_pred(ctx, isep, "is_positive_semidefinite", "state")
 
+    # ---- the operator under test stays the operator under test -----------------------------------------
+    from ..rules import r_operand_preserved
+    for fn_, pn_ in (("is_separable.is_separable", "state"), ("is_ppt.is_ppt", "mat"), ("has_symmetric_extension.has_symmetric_extension", "rho"),
+                     ("is_npt.is_npt", "mat")):
+        r_operand_preserved(ctx, m.func(fn_), pn_)
+
     # ---- has_symmetric_extension ------------------------------------------------------------------
     hs = m.func("has_symmetric_extension.has_symmetric_extension")
     r_thread(ctx, hs, "dim", "symmetric_extension_hierarchy.symmetric_extension_hierarchy")
